@@ -37,7 +37,7 @@ theorem wire_roundtrip_header (p : PbHeader) (h : PbHeaderWF p) : decHeader (enc
 
 /-- What one Marshal/UnMarshal pass makes of an arbitrary in-memory transaction. -/
 def normTx (t : Tx) : Tx :=
-  { t with subTx := if t.subTx = [] then jsonNull else t.subTx,
+  { t with subTx := normSubTx (some t.subTx),
            subHash := bytesToHash t.subHash, hash := bytesToHash t.hash,
            sign := (match t.sign with
                     | some b => if b.length = 65 then some b else none
@@ -59,16 +59,30 @@ theorem tx_convert_roundtrip (t : Tx) : pbToTx (txToPb t) = .ok (normTx t) := by
 
 theorem jsonNull_ne_nil : jsonNull ≠ [] := by decide
 
-/-- The fixed-point law: a second pass changes nothing. -/
-theorem normTx_idem (t : Tx) : normTx (normTx t) = normTx t := by
+/-- Decoding and re-rendering the SubTransactions JSON a second time changes nothing. -/
+def SubTxStable (x : Bytes) : Prop := normSubTx (some (normSubTx (some x))) = normSubTx (some x)
+
+example : SubTxStable jsonNull := by unfold SubTxStable; decide
+example : SubTxStable [] := by unfold SubTxStable; decide
+example : SubTxStable (ascii "[{\"address\":7,\"balance\":\"1.5\",\"coin\":{\"b\":\"<\",\"a\":\"1\"},\"Assets\":null}]") := by
+  unfold SubTxStable; decide
+
+/-- Full statement of the fixed-point law for transactions. -/
+def FullStatement_normTx_idem : Prop := ∀ t : Tx, normTx (normTx t) = normTx t
+
+/-- The fixed-point law: a second pass changes nothing — proved for every transaction whose
+    SubTransactions JSON is stable under decode/re-render (`SubTxStable`; it holds for `null`, the empty
+    string and, by `decide`, for sample values; the general statement needs the inverse property of the
+    JSON string escaper/unquoter and is not proved, nor refuted). -/
+theorem normTx_idem_partial (t : Tx) (hs : SubTxStable t.subTx) : normTx (normTx t) = normTx t := by
   cases t with
   | mk source target type time data extraData extraDataType subTx subHash hash sign nonce requestId sock chainId =>
-  simp only [normTx, bytesToHash_id _ (bytesToHash_length _)]
+  simp only [SubTxStable] at hs
+  simp only [normTx, bytesToHash_id _ (bytesToHash_length _), hs]
   congr 1
-  · split <;> simp_all [jsonNull_ne_nil]
-  · cases sign with
-    | none => rfl
-    | some b => by_cases hb : b.length = 65 <;> simp [hb]
+  cases sign with
+  | none => rfl
+  | some b => by_cases hb : b.length = 65 <;> simp [hb]
 
 /-- The bytes `MarshalTransaction` emits fit the 64-bit framing and the int32 fields are int32. -/
 def TxFits (t : Tx) : Prop :=
@@ -90,16 +104,18 @@ theorem tx_genhash_stable (t : Tx) (h : TxFits t) :
   ⟨normTx t, tx_roundtrip t h, by unfold txGenHash; rw [tx_hash_stable]⟩
 
 /-- In-memory transactions the node builds: 32-byte hashes, a 65-byte signature or none,
-    `SubTransactions` rendered by json.Marshal (never the empty string). -/
+    `SubTransactions` as json.Marshal renders a value that came out of json.Unmarshal (so decoding and
+    re-rendering it gives the same bytes). -/
 def TxValid (t : Tx) : Prop :=
-  t.hash.length = 32 ∧ t.subHash.length = 32 ∧ t.subTx ≠ [] ∧ ∀ b, t.sign = some b → b.length = 65
+  t.hash.length = 32 ∧ t.subHash.length = 32 ∧ normSubTx (some t.subTx) = t.subTx ∧
+  ∀ b, t.sign = some b → b.length = 65
 
 theorem normTx_of_valid (t : Tx) (h : TxValid t) : normTx t = { t with socketRequestId := [] } := by
   obtain ⟨h1, h2, h3, h4⟩ := h
   cases t with
   | mk source target type time data extraData extraDataType subTx subHash hash sign nonce requestId sock chainId =>
   simp only at h1 h2 h3 h4
-  simp only [normTx, bytesToHash_id _ h1, bytesToHash_id _ h2, h3, if_false]
+  simp only [normTx, bytesToHash_id _ h1, bytesToHash_id _ h2, h3]
   congr 1
   cases sign with
   | none => rfl
